@@ -76,6 +76,13 @@ def register(reg):
         note="Val(F, entry): in-RAM payload itself, spilled: the file content (units: see C10.2)",
     ))
 
+    reg.add(Contract(
+        f"{OUT}._unpack", self_cls="TimeCachingAdapter", props=["C10.2", "C11.2"], params={"where": Entry}, result=Pay,
+        requires=lambda ctx: And(unpack_pre(ctx), Implies(entry_is_str(ctx.where), Not(is_none(ctx.get(ctx.self, "_output_info"))))),
+        pure=True, modifies=lambda ctx: [],
+        ensures=lambda ctx, r: And(Not(entry_is_str(r)), entry_pay_e(r) == val_in(ctx, ctx.where)),
+    ))
+
     # ------------------------------------------------------------------ _interpolate (C08.1)
     def interp_pre(ctx):
         d = ctx.get(ctx.self, "data")
@@ -292,12 +299,13 @@ def register2(reg):
                      z3.ForAll([x], And(fx1.dom(x) == fx0.dom(x), fd1.val(x).e == fd0.val(x).e)))
         return If(spill_cond(ctx), spilled, in_ram)
 
-    reg.add(Contract(
-        f"{OUT}._pack", self_cls="Output", props=["C10.1"], params={"data": Pay}, result=Entry,
-        requires=lambda ctx: ctx.get(ctx.self, "_mem_counter").e >= 0,
-        ensures=pack_post,
-        modifies=lambda ctx: [(ctx.self, "_total_mem"), (ctx.self, "_mem_counter"), (WORLD, "$fexists"), (WORLD, "$fdata")],
-    ))
+    for scls in ("Output", "TimeCachingAdapter"):
+        reg.add(Contract(
+            f"{OUT}._pack", self_cls=scls, props=["C10.1"], params={"data": Pay}, result=Entry,
+            requires=lambda ctx: ctx.get(ctx.self, "_mem_counter").e >= 0,
+            ensures=pack_post,
+            modifies=lambda ctx: [(ctx.self, "_total_mem"), (ctx.self, "_mem_counter"), (WORLD, "$fexists"), (WORLD, "$fdata")],
+        ))
 
     # ------------------------------------------------------------------ finalize (C10.4)
     def fin_pre(ctx):
